@@ -57,6 +57,14 @@ def cases(tier, seed):
                     continue
                 out.append(dict(kind="policy", policy="neuopt", cfg=dict(env="tsp_kopt", n=n, k=k), B=8, s=rnd.randrange(10**6), steps=12 if q else 40))
             out.append(dict(kind="policy", policy="n2s", cfg=dict(env="pdp_ruin_repair", n=n + (n % 2)), B=8, s=rnd.randrange(10**6), steps=12 if q else 40))
+    if q:  # a few chains at production sizes
+        for n in (50, 100):
+            for k in (2, 3, 5):
+                out.append(dict(kind="sampler", cfg=dict(env="tsp_kopt", n=n, k=k), B=8, s=rnd.randrange(10**6), steps=40, to_best_every=13, jump_every=9))
+            out.append(dict(kind="sampler", cfg=dict(env="pdp_ruin_repair", n=n), B=8, s=rnd.randrange(10**6), steps=40, to_best_every=13, jump_every=9))
+            out.append(dict(kind="policy", policy="dact", cfg=dict(env="tsp_kopt", n=n, k=2), B=4, s=rnd.randrange(10**6), steps=8))
+            out.append(dict(kind="policy", policy="neuopt", cfg=dict(env="tsp_kopt", n=n, k=4), B=4, s=rnd.randrange(10**6), steps=8))
+            out.append(dict(kind="policy", policy="n2s", cfg=dict(env="pdp_ruin_repair", n=n), B=4, s=rnd.randrange(10**6), steps=8))
     # initial tours: the generators' own "random" or "greedy" (nearest-neighbour) construction, one third greedy
     rnd2 = random.Random(seed * 59 + 10)
     for c in out:
